@@ -215,7 +215,9 @@ func enumStrings(alpha []string, maxLen int, f func(string)) {
 }
 
 var c13Seeds = []string{`C:`, `c:\`, `\\host\share`, `\\?\C:\`, `\\.\pipe`, `\??\C:`, `\\?\UNC\h\s`, `..`, `.`, `a/b`, `a\b`, `/`, `\`, `//`, `[a-z]`, `[^x]`, `\*`, `*`, `?`,
-	`abc/def/../ghi`, `../../x`, `C:a`, `C:/a/../..`, `\\a\b\..\c`, `a//b`, `a/./b/`, `[]a]`, `[-]`, `[x-]`, `a*b?c`, `é/é`, `NUL`, `COM1`, `\\.\C:\x`, `//./x`, `\\`, `\\a`}
+	`abc/def/../ghi`, `../../x`, `C:a`, `C:/a/../..`, `\\a\b\..\c`, `a//b`, `a/./b/`, `[]a]`, `[-]`, `[x-]`, `a*b?c`, `é/é`, `NUL`, `COM1`, `\\.\C:\x`, `//./x`, `\\`, `\\a`,
+	// the volume keywords are matched without regard to case
+	`\\.\unc\h\s`, `\\.\UnC\a\b`, `//./unc/x/y`, `\\.\UNC\h\s\..\z`, `\\?\unc\h\s`, `c:`, `C:\`, `\\.\Unc`, `\\.\uNc\`}
 
 func (k *c13) fuzz(n int) {
 	r := k.c.Rand("fuzz-" + k.ref.name)
